@@ -98,7 +98,9 @@ type wbuild struct {
 	long       bool
 	live       map[*simexec.Invocation]string
 	// remote mode: epoch of the result the remote namespace holds per key (non-hermetic targets)
-	remoteNH    map[string]string
+	remoteNH map[string]string
+	// strict keys whose result the last checked build recorded (executed successfully, cacheable)
+	recordedNow map[string]bool
 	remoteLossy bool
 	fs          *faultState
 	focus       string
